@@ -141,7 +141,8 @@ def main(args):
     n_rand = args.runs or TIERS[tier]['random']
     small = small_indices(seed, n_small)
     tasks = [('small', i) for i in small] + [('random', i) for i in range(n_rand)]
-    recs = core.parallel_runs(lambda k: one_run(tasks[k][0], tasks[k][1], seed), list(range(len(tasks))))
+    stop = core.EarlyStop(lambda r: r.get('status') == 'violation')
+    recs = core.parallel_runs(lambda k: one_run(tasks[k][0], tasks[k][1], seed), list(range(len(tasks))), progress=stop)
     hashes, nontrivial = set(), set()
     ovl, probes_hit = {}, {}
     steps = probes = reps = 0
@@ -151,8 +152,11 @@ def main(args):
     small_done = 0
     modes = {}
     digests = []
+    skipped = 0
     for k in sorted(recs):
         r = recs[k]
+        if r.get('_skipped'):
+            skipped += 1; continue
         if '_harness_error' in r:
             batch.harness_errors.append(r['_harness_error']); continue
         if r['status'] == 'harness':
@@ -202,9 +206,10 @@ def main(args):
                'original_ops': len(ops)}
         path = core.write_replay('C07', rec)
         batch.violations.append({'replay': path, 'class': cls})
-    total = len(tasks)
+    total = len(tasks) - skipped
     cov = {
         'evaluations': total,
+        'skipped_after_early_stop': skipped,
         'distinct_histories': len(hashes),
         'distinct_nontrivial': len(nontrivial),
         'rule': ('histories = (a) shapes of the small space named by the property (<=2 stores + 1 load, widths 8/16/32, offsets 0..7, constant or '
